@@ -808,6 +808,26 @@ def _run(ctx):
     ctx.cov["conformance_drifts"] = eng.ndrift
     ctx.cov["tree_has_initial_get"] = eng.saw_get
 
+    if not quick:
+        # vacuity of the invariant: the model of the PINNED getMessages (Get + GetNext(lastSeen),
+        # Fixed = FALSE) must violate it; liveness of the repaired protocol
+        r2 = ctx.tlc("GetMessages", cfg="GetMessages_unfixed.cfg", workers=4, timeout=900, deadlock=False,
+                     name="tlc-pinned", extra=["-noGenerateSpecTE"])
+        ctx.add("tlc_runs")
+        ctx.cov["model_of_pinned_getmessages_violates"] = r2.invariant_violated
+        if r2.invariant_violated != "DeliveredIsPrefix":
+            raise vlib.Inconclusive("the model of the pinned getMessages does not violate DeliveredIsPrefix "
+                                    "(the invariant does not discriminate)\n" + "\n".join(r2.out.splitlines()[-20:]))
+        r3 = ctx.tlc("GetMessages", cfg="GetMessages_live.cfg", workers=4, timeout=900, deadlock=False,
+                     name="tlc-live")
+        ctx.add("tlc_runs")
+        if not r3.ok:
+            raise vlib.Inconclusive("liveness Complete not established on the design spec:\n" +
+                                    "\n".join(r3.out.splitlines()[-30:]))
+        ctx.cov["liveness_Complete"] = {"distinct": r3.distinct, "cfg": "GetMessages_live.cfg"}
+        ctx.cov["states"] += r3.distinct
+        ctx.cov["transitions"] += r3.generated
+
     ctx.assumptions += [
         "GetNext is atomic w.r.t. the stream at one instant and returns the smallest batch id above its "
         "argument or the successor of the tail (C08); nothing below the resume point is deleted (scope of C04)",
